@@ -79,6 +79,11 @@ func init() {
 		B := newAcct("B", []byte("sb-B"))
 		idents, _ := mkIdents()
 		doc, _ := genDoc(rand.New(rand.NewSource(3)), idents[0].did, idents[0])
+		// the same DID with other documents: messages that agree in every field but the document
+		docB, _ := genDoc(rand.New(rand.NewSource(5)), idents[0].did, idents[0])
+		docC := *doc
+		docC.Services = []*didtypes.Service{{Id: "s9", Type: "T", ServiceEndpoint: "https://other"}}
+		docs := []*didtypes.DIDDocument{doc, doc, docB, &docC}
 		strs := []string{"", "t", "topic-1", "caf\u00e9", "caf\\u00e9", "a\"b", "x<y>&z", "tab\there\nnl", "日本語", "back\\slash", "\u2028sep"}
 		opt := func() string { return strs[rng.Intn(len(strs))] }
 		gen := func() sdk.Msg {
@@ -97,9 +102,9 @@ func init() {
 				}
 				return &aoltypes.MsgAddRecordRequest{TopicName: "t", Key: []byte(opt()), Value: []byte(opt()), WriterAddress: w, OwnerAddress: o, FeePayerAddress: fp}
 			case 4:
-				return &didtypes.MsgCreateDIDRequest{Did: idents[0].did, Document: doc, VerificationMethodId: idents[0].did + "#key1", Signature: []byte{1, 2}, FromAddress: o}
+				return &didtypes.MsgCreateDIDRequest{Did: idents[0].did, Document: docs[rng.Intn(len(docs))], VerificationMethodId: idents[0].did + "#key1", Signature: []byte{1, 2}, FromAddress: o}
 			case 5:
-				return &didtypes.MsgUpdateDIDRequest{Did: idents[0].did, Document: doc, VerificationMethodId: idents[0].did + "#key1", Signature: []byte{1, 2}, FromAddress: o}
+				return &didtypes.MsgUpdateDIDRequest{Did: idents[0].did, Document: docs[rng.Intn(len(docs))], VerificationMethodId: idents[0].did + "#key1", Signature: []byte{1, 2}, FromAddress: o}
 			case 6:
 				return &didtypes.MsgDeactivateDIDRequest{Did: idents[0].did, VerificationMethodId: idents[0].did + "#key1", Signature: []byte{1, 2}, FromAddress: o}
 			case 7:
